@@ -53,6 +53,13 @@ CHECKS = {
             "no other written atom may change.",
             "Trusted: colour refinement gives classes that contain the true symmetry orbits (so the permutation "
             "oracle is necessary, never stricter); radius tables as hard-coded in the harness.", "DESIGN.md#c16"),
+    "C07": ("exploration", "reference-model monitor: independent fixed-column reader vs the atoms held by the Biomolecule at a hook on main.setup_molecule, inside real --clean runs",
+            "Each generated PDB text (1-3 random text-level mutations of a generated structure) is run through the real "
+            "main_driver --clean; the identities held right after construction are captured by wrapping "
+            "main.setup_molecule (fallback: the --clean PQR) and compared as multisets with an independent column "
+            "read of the same bytes (first model, first alt-loc per identity, waters iff no --drop-water).",
+            "Trusted: the wwPDB column layout; alternate atom names normalised through an own parse of AA/NA.xml; "
+            "coordinate records are well-formed and residues contiguous by construction.", "DESIGN.md#c07"),
 }
 
 NOT_APPLICABLE = {}
